@@ -75,7 +75,8 @@ pub struct Registry {
     pub zst_created: u64,
     pub ev: [OpEvents; 4],
     pub cb_calls: [u32; NCB],
-    pub fault: Option<(Cb, u32)>,
+    /// fault plan: (callback class, k-th invocation, already fired)
+    pub faults: Vec<(Cb, u32, bool)>,
     pub fault_fired: bool,
     pub drops_total: u64,
 }
@@ -95,7 +96,7 @@ impl Registry {
                 OpEvents { created: Vec::new(), drops: Vec::new(), zst_drops: 0, clones: Vec::new(), zst_clones: 0, cmps: 0 },
             ],
             cb_calls: [0; NCB],
-            fault: None,
+            faults: Vec::new(),
             fault_fired: false,
             drops_total: 0,
         }
@@ -110,7 +111,7 @@ impl Registry {
             *e = OpEvents::default();
         }
         self.cb_calls = [0; NCB];
-        self.fault = None;
+        self.faults.clear();
         self.fault_fired = false;
         self.drops_total = 0;
     }
@@ -258,12 +259,14 @@ fn on_drop(raw: u32, width: usize, shape: &'static str) {
 pub fn callback(cb: Cb) {
     let fire = reg(|r| {
         r.cb_calls[cb as usize] += 1;
-        match r.fault {
-            Some((c, k)) if c == cb && r.cb_calls[cb as usize] == k && !r.fault_fired => {
+        let calls = r.cb_calls[cb as usize];
+        match r.faults.iter_mut().find(|f| f.0 == cb && f.1 == calls && !f.2) {
+            Some(f) => {
+                f.2 = true;
                 r.fault_fired = true;
-                Some(k)
+                Some(calls)
             }
-            _ => None,
+            None => None,
         }
     });
     if let Some(k) = fire {
